@@ -151,27 +151,29 @@ Proof.
   rewrite smax_R. rewrite !slit_minval. fold (tau_of prm). sR. reflexivity.
 Qed.
 
-Lemma next_act_user h prm rng a ad sc cl : next_act h 7 prm rng a ad sc cl = a.
+(* dyntype user: the activation is not integrated by next_act (act_dyn_callback owns it) ... *)
+Lemma next_act_user h prm rng a ad sc : next_act h 7 prm rng a ad sc false = a.
 Proof. reflexivity. Qed.
 
+(* ... but IS clamped when actlimited (since /repo 0fa25c6, as mj_nextActivation does) *)
+Lemma next_act_user_clamped h prm rng a ad sc :
+  next_act h 7 prm rng a ad sc true = Rclamp a (vget rng 0) (vget rng 1).
+Proof. reflexivity. Qed.
+
+(* every dyntype: the clamped result is the clamp of the unclamped one *)
 Lemma next_act_clamp h dyn prm rng a ad sc :
-  dyn <> 7%Z ->
   next_act h dyn prm rng a ad sc true = Rclamp (next_act h dyn prm rng a ad sc false) (vget rng 0) (vget rng 1).
-Proof.
-  intros H7. unfold next_act. apply Z.eqb_neq in H7.
-  destruct (dyn =? 3)%Z; [reflexivity|]. rewrite H7. reflexivity.
-Qed.
+Proof. unfold next_act. destruct (dyn =? 3)%Z; [reflexivity|]. destruct (dyn =? 7)%Z; reflexivity. Qed.
 
 Lemma next_act_limited h dyn prm rng a ad sc :
-  dyn <> 7%Z -> vget rng 0 <= vget rng 1 ->
+  vget rng 0 <= vget rng 1 ->
   vget rng 0 <= next_act h dyn prm rng a ad sc true <= vget rng 1.
-Proof. intros H7 Hr. rewrite next_act_clamp by exact H7. apply Rclamp_range. exact Hr. Qed.
+Proof. intros Hr. rewrite next_act_clamp. apply Rclamp_range. exact Hr. Qed.
 
 Lemma next_act_limited_id h dyn prm rng a ad sc :
-  dyn <> 7%Z ->
   vget rng 0 <= next_act h dyn prm rng a ad sc false <= vget rng 1 ->
   next_act h dyn prm rng a ad sc true = next_act h dyn prm rng a ad sc false.
-Proof. intros H7 Hr. rewrite next_act_clamp by exact H7. apply Rclamp_id. exact Hr. Qed.
+Proof. intros Hr. rewrite next_act_clamp. apply Rclamp_id. exact Hr. Qed.
 
 (* filter: act_dot as _actuator_force computes it *)
 Lemma act_dot_filter dyn prm c a :
